@@ -64,6 +64,9 @@ func (h *vC05Hook) logSizes() map[string]int64 {
 
 func (h *vC05Hook) install() {
 	CrashHook = func(p string) {
+		if strings.HasPrefix(p, "reader:") {
+			return // synchronisation points of the tail-reader driver (tailwait_test.go), not file-system effects
+		}
 		h.hits++
 		h.seq = append(h.seq, p)
 		if h.dir != "" {
